@@ -358,13 +358,20 @@ CONTROL_SHAPES = ([c for c in CONTROL if c not in ("\n", "\x00")]
                   + ["../" + c for c in CONTROL] + ["../out" + c + "side/secret.txt" for c in ("\n", "\r", "\u2028")]
                   + ["..\n", "..\n/x", "\n/..", "../..\n", "a/../../\n", "/\n", "/etc\n/passwd", "//\n", "..\x00/..", "a\nb/../..",
                      "in\nside/ok.txt", "sub/../../out\nside/secret.txt", "\n../x", "..\r\n"])
+# compatibility characters that NFKC / NFKD fold into dots and separators (two dot leader, one dot leader, fullwidth full stop,
+# small full stop, fullwidth solidus / reverse solidus, horizontal ellipsis, ideographic full stop, a ligature): harmless names
+# for safe_join, dangerous only if something normalises the path after the vetting
+COMPAT_SHAPES = ["\u2025", "\u2024\u2024", "\uff0e\uff0e", "\ufe52\ufe52", "\u2026", "\u3002\u3002", "\uff0f", "\uff3c", "\ufb01le",
+                 "\u2025/outside_sentinel.txt", "\uff0e\uff0e/outside_sentinel.txt", "\u2024\u2024/outside_sentinel.txt",
+                 "..\uff0foutside_sentinel.txt", "\uff0e\uff0e\uff0foutside_sentinel.txt", "\ufe52\ufe52/outside_sentinel.txt",
+                 "sub/\u2025/\u2025/outside_sentinel.txt", "\u2025/\u2025", "\uff0e/\u2025", "\u2025\uff3c\u2025", "\uff0fetc\uff0fpasswd"]
 # components assembled from them (each is a concatenation of atoms)
 ASSEMBLED = ["../", "../a", "a/..", "a/../..", "a/../../", "sub/../..", "./..", "..//", "../..", "/..", "/../a", "//..",
              "a/b", "a//b", "a/./b", "a/", "./a", "sub/inner.txt", "sub/../index.txt", "../outside_sentinel.txt",
              "sub/../../outside_sentinel.txt", "/etc/passwd", "//etc/passwd", "..\\", "\\..\\", "..\\..\\a", "~root", "~/a",
              "C:\\a", "c:/..", "%2e%2e/", "..%2f", "a\x00b", "..\x00", "\x00/..", "../\x00", ".../..", "..a/..", "a../..",
              "..a/../..", ".../../..", "./", ".//.", "a/b/../../..", "a/b/../..", "/", "///"]
-COMPONENTS = list(dict.fromkeys(ATOMS + ASSEMBLED + CONTROL_SHAPES))
+COMPONENTS = list(dict.fromkeys(ATOMS + ASSEMBLED + CONTROL_SHAPES + COMPAT_SHAPES))
 BASES = {
     "absolute": ["/srv/www", "/srv/www/", "/srv/../www", "//srv", "///srv/www//"],
     "relative": ["static", "static/", "./static", "../up", "a/../..", "..", "."],
@@ -699,7 +706,9 @@ def _e2e(chk, wutils, SharedDataMiddleware, EnvironBuilder, NotFound, corpus) ->
                  "a/../../outside_sentinel.txt", ".../../../outside_sentinel.txt", "sub/../..//outside_sentinel.txt",
                  "../root/index.txt", "sub/../../root/index.txt", "\\/../../outside_sentinel.txt",
                  "../out\nside/secret.txt", "sub/../../out\nside/secret.txt", "../out\rside/secret.txt",
-                 os.path.join(T, "out\nside", "secret.txt"), "in\nside/ok.txt", "in\nside/../../out\nside/secret.txt"]
+                 os.path.join(T, "out\nside", "secret.txt"), "in\nside/ok.txt", "in\nside/../../out\nside/secret.txt",
+                 "\u2025/rootx/index.txt", "\uff0e\uff0e/rootx/index.txt", "sub/\u2025/\u2025/index.txt", "\u2024\u2024/index.txt",
+                 "\uff0e\uff0e\uff0frootx\uff0findex.txt", "..\uff0frootx/index.txt", "\u2026/\u2025/\u2025/outside_sentinel.txt"]
         tails = ["outside_sentinel.txt", "index.txt", "rootx/index.txt", "root/index.txt", "inner.txt", "x.txt", "b"]
         paths: list[tuple[str, ...]] = [tuple(p) for p in corpus.get("request_paths", [])] + [(p,) for p in reach + COMPONENTS]
         paths += [(a, b) for a in COMPONENTS for b in tails] if not quick else []
